@@ -26,3 +26,7 @@ pub use stream::{
     StreamSubscription,
 };
 pub use sync_metrics::{SessionPhase, SyncError};
+
+#[cfg(p2panda_p2panda_verif)]
+#[doc(hidden)]
+pub use acked::Acked as VerifAcked;
